@@ -22,8 +22,6 @@ func main() {
 		runC38(*tier, *replay)
 	case "C39":
 		runC39(*tier, *replay)
-	case "C38dbg":
-		runC38Debug()
 	default:
 		fmt.Fprintln(os.Stderr, "engine xfer: unknown property", *prop)
 		os.Exit(3)
